@@ -548,3 +548,30 @@ Theorem pure_rename_reverse_quoted : forall o f0 fl tl oldn newn sim w data mode
     moved_to (fs w) (umask w) (ext_name (strip_size o) (bs "b/") newn) (ext_name (strip_size o) (bs "a/") oldn) data mode (fs w').
 Proof. exact Proofs_WholeRename.pure_rename_reverse_quoted. Qed.
 Print Assumptions pure_rename_reverse_quoted.
+
+(* ===== the known finding K-C05-context-epoch-deletion-reversed, as a statement about the model ===== *)
+From PatchV Require Import Base Lines Hunk Options Parser World Driver.
+Local Open Scope string_scope.
+Definition nl1 : list N := [10%N].
+(* K-C05-context-epoch-deletion-reversed: -R of a whole-file deletion in context format written diff -cN style, the file absent:
+   the run ends with status 2 and creates nothing, where C05 asks for the file to come back *)
+Definition rf_tab : list N := [9%N].
+Definition rf_ctx : list N :=
+  bs "*** a/f" ++ rf_tab ++ bs "2024-01-01 00:00:00 +0000" ++ nl1 ++ bs "--- b/f" ++ rf_tab ++ bs "1970-01-01 00:00:00 +0000" ++ nl1 ++
+  bs "***************" ++ nl1 ++ bs "*** 1 ****" ++ nl1 ++ bs "- a" ++ nl1 ++ bs "--- 0 ----" ++ nl1.
+Definition rf_optsR :=
+  mkOptions false false [] [] false (bs "p.diff") false false false [] 1 2 true [] [] false false false false false false false false OBYes OBYes MNative RFDefault ROWarn QSUnset [] [].
+Definition rf_worldR := mkWorld [(bs "p.diff", Reg rf_ctx 420)] 18 [] None [].
+Theorem context_epoch_deletion_reversed_refuted :
+  let r := run_patch rf_optsR [] rf_worldR in
+  rr_exit r = 2 /\ lookup (fs (rr_world r)) (bs "f") = None.
+Proof. vm_compute. split; reflexivity. Qed.
+Print Assumptions context_epoch_deletion_reversed_refuted.
+(* ... while the forward run of the same patch on the tree that holds the file removes it (so -R has something to undo) *)
+Definition rf_optsF :=
+  mkOptions false false [] [] false (bs "p.diff") false false false [] 1 2 false [] [] false false false false false false false false OBYes OBYes MNative RFDefault ROWarn QSUnset [] [].
+Theorem context_epoch_deletion_forward :
+  let r := run_patch rf_optsF [] (mkWorld [(bs "f", Reg (bs "a" ++ nl1) 420); (bs "p.diff", Reg rf_ctx 420)] 18 [] None []) in
+  rr_exit r = 0 /\ lookup (fs (rr_world r)) (bs "f") = None.
+Proof. vm_compute. split; reflexivity. Qed.
+Print Assumptions context_epoch_deletion_forward.
